@@ -396,6 +396,34 @@ static void N(unary_case)(uint64_t idx, void *vctx)
             /* NULL box is allowed */
             if ((RF(contains_point)(&ra, (int)px, (int)py, NULL) != 0) != exp) { vf_violation("c07-contains_point", "NULL-box variant differs at (%lld,%lld) A=%#llx", (long long)px, (long long)py, (unsigned long long)A); break; }
             outcome = vf_mix(outcome, (uint64_t)got);
+#if RW == 16
+            /* the arguments are ints: positions outside the 16-bit coordinate range (here: the same point moved by multiples of 65536)
+             * belong to no 16-bit region */
+            if (exp && !vf_failed()) {
+                static const int64_t wrap[6] = { 65536, -65536, 131072, -131072, 65536LL * 32767, -65536LL * 32768 };
+                for (int q = 0; q < 12 && !vf_failed(); q++) {
+                    int64_t qx = px + (q < 6 ? wrap[q] : 0), qy = py + (q >= 6 ? wrap[q - 6] : 0);
+                    if (qx > INT32_MAX || qx < INT32_MIN || qy > INT32_MAX || qy < INT32_MIN) continue;
+                    vf_count_transitions(1);
+                    if (RF(contains_point)(&ra, (int)qx, (int)qy, NULL))
+                        vf_violation("c07-contains_point", "%s w=16 contains_point A=%#llx[%s] (%lld,%lld): TRUE for a position outside the 16-bit coordinate range (it is (%lld,%lld) moved by a multiple of 65536)",
+                                     u->name, (unsigned long long)A, N(cons_name)(A, ca), (long long)qx, (long long)qy, (long long)px, (long long)py);
+                }
+            }
+#endif
+        }
+        if (!vf_failed()) {
+            static const int ext[4] = { INT32_MAX, INT32_MIN, INT32_MAX - 1, INT32_MIN + 1 };
+            for (int q = 0; q < 16 && !vf_failed(); q++) {
+                int qx = ext[q & 3], qy = ext[q >> 2];
+                int exp2 = 0;
+#if RW == 32
+                for (int k = 0; k < la.n; k++) if (qx >= la.r[k].x1 && qx < la.r[k].x2 && qy >= la.r[k].y1 && qy < la.r[k].y2) exp2 = 1;
+#endif
+                vf_count_transitions(1);
+                if ((RF(contains_point)(&ra, qx, qy, NULL) != 0) != exp2)
+                    vf_violation("c07-contains_point", "%s w=%d contains_point A=%#llx[%s] (%d,%d) at the int limits: got %d expected %d", u->name, RW, (unsigned long long)A, N(cons_name)(A, ca), qx, qy, !exp2, exp2);
+            }
         }
         snprintf(what, sizeof what, "%s w=%d queries on A=%#llx[%s]", u->name, RW, (unsigned long long)A, N(cons_name)(A, ca));
         N(judge)(&ra, &ea, what);
